@@ -2375,5 +2375,7 @@ func repairWalFile(src, dst string) error {
 		}
 	}
 
-	return nil
+	// the records were durable in src; they must be durable in dst before new
+	// records are appended (and acknowledged) behind them
+	return out.Sync()
 }
